@@ -82,6 +82,13 @@ def fault_snippets(w):
         f['bad-char-%02x-then-blank-lines' % ord(ch)] = ([ch + ' ', '', ' '], 'end', ['lexing error'])
     for ch in ('\x85', '\xa0', '\u2003', '\u3000'):
         f['bad-char-u%04x-last:utf8' % ord(ch)] = ([ch], 'eof', ['lexing error'])
+    # an empty segment far beyond the memory that only holds a label (nothing is written for it)
+    f['huge-value:empty-segment-with-label'] = (['segment (1 << 20000)', 'zz_far:'], 'end', ['space', 'fit', 'range', 'memory', 'segment'])
+    f['empty-segment-just-beyond-memory'] = (['segment %d' % (big + 2 * w), 'zz_far:'], 'end', ['space', 'fit', 'range', 'memory', 'segment'])
+    # several hundred chained operators that can only be evaluated late (label operand) / early (literals)
+    deep_needles = ['nested', 'recursion', 'deep', 'expression']
+    f['deep-expression:label'] = (['zz_d:', ';zz_d' + ' + 1' * 700], 'end', deep_needles)
+    f['deep-expression:parens'] = ([';' + '(' * 600 + 'zz_d2' + ')' * 600, 'zz_d2:'], 'end', deep_needles)
     f['non-utf8-source-bytes'] = (['\xff\xfe;'], 'end', ['utf', 'decode', 'encod', 'byte'])
     # values far beyond any word (no python int -> decimal string conversion may be attempted on them: 4300-digit limit)
     huge = '(1 << 20000)'
@@ -226,7 +233,7 @@ def apply_mutations(src, muts):
     return src
 
 
-def assemble(src, w, version, encoding='latin-1', stats=False):
+def assemble(src, w, version, encoding='latin-1', stats=False, debug_file=False):
     import flipjump
     from flipjump.fjm.fjm_consts import FJMVersion
     from flipjump.utils.exceptions import FlipJumpException
@@ -240,7 +247,8 @@ def assemble(src, w, version, encoding='latin-1', stats=False):
     try:
         with contextlib.redirect_stdout(io.StringIO()), engines.hang_guard(8):
             flipjump.assemble([f], out, memory_width=w, fjm_version=FJMVersion(version), print_time=False,
-                              warning_as_errors=False, use_stl=False, show_statistics=stats)
+                              warning_as_errors=False, use_stl=False, show_statistics=stats,
+                              debugging_file_path=(tmp / 'c14.fjd') if debug_file else None)
     except FlipJumpException as e:
         return 'fj', e, out
     except engines.EngineTimeout:
@@ -311,7 +319,8 @@ def run_case(case):
         src = apply_mutations(src, case['mutations'])
     # the macro-usage statistics option (text fallback without plotly) on a third of the cases: it runs inside the pipeline
     stats = (len(src) + w + case['version']) % 3 == 0
-    status, exc, out = assemble(src, w, case['version'], 'utf-8' if str(case.get('fault', '')).endswith(':utf8') else 'latin-1', stats)
+    debug_file = (len(src) + case['version']) % 2 == 0   # the debugging-labels file is written at the very end of the pipeline
+    status, exc, out = assemble(src, w, case['version'], 'utf-8' if str(case.get('fault', '')).endswith(':utf8') else 'latin-1', stats, debug_file)
     if stats:
         cl.append('show_statistics')
     if status == 'timeout':
@@ -319,6 +328,9 @@ def run_case(case):
     if status == 'raw':
         return Violation('c14:raw-exception:%s' % type(exc).__name__, {'exc': repr(exc)[:300], 'src': src[-600:]}, cl)
     if status == 'ok':
+        if case['kind'] == 'fault' and case['fault'].startswith('deep-expression'):
+            # a valid program whenever the interpreter's recursion limit happens to be enough: only HOW it fails is checked
+            return Ok(cl + ['deep expression assembled'], False)
         if case['kind'] == 'fault':
             return Violation('c14:faulty-program-accepted:' + case['fault'], {'src': src[-400:]}, cl)
         cl.append('mutant still valid')
